@@ -8,12 +8,15 @@ ALL = ["C%02d" % i for i in range(1, 21)]
 
 CLAIMED = {
     "C12": dict(
-        text="Coq theorems (Properties/C12.v, 9 statements, closed under the global context) about the "
+        text="Coq theorems (Properties/C12.v, 11 statements, closed under the global context) about the "
              "definition of bins() that tools/translate.py regenerates from gffutils/bins.py on every run: "
              "one=True is the finest real bin containing the interval plus the following base; one=False "
              "contains every overlapping bin and only bins meeting interval+1; out-of-range -> bin 1 with the "
-             "right result type; overlap soundness for every in-range query; Feature.bin. A semantic edit of "
-             "bins.py breaks Proofs/GenEquiv.v; the exhaustive boundary grid then yields the concrete pair.",
+             "right result type; overlap soundness for every in-range query; Feature.bin; the stored bin = bins(start, end) as an "
+             "invariant of every import step of both importers. A semantic edit of "
+             "bins.py breaks Proofs/GenEquiv.v; the exhaustive boundary grid then yields the concrete pair. The grid also runs "
+             "through Features the library makes itself (interfeatures gap, merge union, splice sites): their .bin against "
+             "bins(start, end) of the coordinates they come out with (this found F24 and F25).",
         note="Trusted: Coq kernel + vm_compute; translator (Python ast -> Gallina, fail-closed; Python >> = "
              "Z.shiftr); the correspondence harness (grid generator, set canonicalisation as sorted runs). "
              "Feature.calc_bin's None handling and _bin_from_dict are hand-modelled and tied by the "
@@ -90,8 +93,11 @@ CLAIMED = {
              "tab/newline/CR/;/=/,/&; split_with D (reconstruct m D) = Ok m for ALL mappings of the property (word-like unique "
              "keys, non-empty lists of non-empty unicode strings) and all 24 GFF3-style dialects, and for all 12 standard GTF "
              "dialects on values free of ; \" , and control characters (C08_roundtrip_gtf); the printed Feature is one line with exactly "
-             "8+|extra| tabs (C08_single_line). 'Parsing never raises' is NOT carried by a theorem (the model's primitives are "
-             "total, so C08_total_with holds by construction): for both parser paths it is decided by the correspondence (6k mappings x 48 dialects, every string up to "
+             "8+|extra| tabs (C08_single_line), and the WHOLE line parses back to the Feature it came from - columns, '.' or integer "
+             "coordinates of any size and sign, attributes, extra columns - for every GFF3-style dialect with keep_order and "
+             "sort_attribute_values off (C08_line_roundtrip). 'Parsing never raises' is NOT carried by a theorem (the model's primitives are "
+             "total, so C08_total_with holds by construction): for both parser paths it is decided by the correspondence (6k mappings x 48 dialects, a third of them printed "
+             "and re-read with keep_order on and dialect orders that list only some of the keys; every string up to "
              "length 6 over the structural alphabet screened through both parser paths).",
         note="Trusted: Coq kernel + vm_compute; Model/Parser.v (hand model of _split_keyvals/_reconstruct/Feature.__str__) and "
              "Base/Utf8.v (model of urllib.parse.unquote + UTF-8 'replace') are tied to the code by the correspondence only; "
@@ -203,12 +209,15 @@ CLAIMED = {
              "exactly one derived feature retrievable by that id, spanning exactly the declarative min start .. max end of its "
              "subfeature lines (GtfSpec.expected_extent), keys unique. The "
              "correspondence checks the property directly on the implementation's tables for ~260 generated annotations per "
-             "quick run (shuffled, explicit lines, 4 flag combinations, custom keys/subfeature, text and Feature input) besides "
-             "comparing all four tables with the model inside Coq.",
+             "quick run (shuffled, explicit lines, 4 flag combinations, custom keys/subfeature, text and Feature input, transcripts "
+             "that occur under several genes, a second annotation imported through update() on the same in-memory database) besides "
+             "comparing all four tables with the model inside Coq. A gene id under which no subfeature is filed is skipped (F26, "
+             "found by this check and fixed in /repo); C03_gene_inferred is stated for genes that have an extent.",
         note="Trusted: Coq kernel + vm_compute; Model/Import.v (GTF part: relation triples, the DISTINCT/ORDER BY pair query, "
              "MIN/MAX with bare columns, temp-file round trip as identity on tab/newline-free fields, merge on collision) is "
-             "hand-written and tied by the correspondence only. Domain: lines carry both ids, one seqid/strand per transcript "
-             "and gene, integer coordinates, gene ids distinct from transcript ids. C03_import_end_to_end covers files "
+             "hand-written and tied by the correspondence only. Domain: one seqid/strand per transcript "
+             "and gene, integer coordinates, gene ids distinct from transcript ids (a transcript may occur under several genes; lines "
+             "with the gene id only are in the domain, F21). C03_import_end_to_end covers files "
              "without explicit gene/transcript lines and without gene-id-only lines; those are covered by the per-state theorems (component theorems + correspondence).",
         technique="Coq proof (relation-triple, min/max extent, flag and collision theorems on the importer model) + differential correspondence with a direct spec check",
         design="4 (C03)"),
@@ -216,17 +225,19 @@ CLAIMED = {
         text="The property is a refinement claim; the reference model is the machine of Model/Machine.v (state = committed "
              "file content incl. the autoincrements table, the open object's live counters, the .bak content; operations "
              "update(features, strategy, checklines, failure position of the source, make_backup), delete(ids), add_relation, "
-             "close+reopen), built on the importer model already proved for C02/C04/C05. Coq theorems (Properties/C10.v, 14 "
+             "close+reopen), built on the importer model already proved for C02/C04/C05. Coq theorems (Properties/C10.v, 19 "
              "statements, closed under the global context, for every state / operation / history and any id_spec callable): "
              "delete removes exactly the named rows and exactly the relations mentioning them, keeps the order of the rest, "
-             "the duplicates table and all counters; update with no features changes nothing; with make_backup the .bak is "
+             "the duplicates table and all counters; update with no features changes nothing; add_relation is refused - and then nothing at all has changed - unless both "
+             "features are stored and the triple is new, otherwise exactly that triple is appended, the child's row rewritten in "
+             "place only when a child_func is given, keys and everything else untouched; with make_backup the .bak is "
              "the complete pre-operation state for EVERY update - every strategy and every position at which the feature "
              "source may fail - and every delete, and is left alone otherwise; a failing source or a failing populate leaves "
              "the file untouched; reopen preserves the content and reloads the persisted counters; primary keys stay unique "
              "through every history (induction over the operation list: a generated key never equals a stored one); the "
              "first id-less feature of an update is stored under <featuretype>_(live counter+1); over every history the persisted "
              "counters only grow and never run ahead of the live ones (numbering continues across updates and reopenings). Tied to interface.py/"
-             "create.py by every history up to length 3 (thorough 4) over a 13-operation alphabet plus 500 random "
+             "create.py by every history up to length 3 (thorough: a third of length 4) over a 15-operation alphabet plus 500 random "
              "histories up to length 8 on GFF3 databases and every history up to length 2 (thorough 3) over a 10-operation alphabet "
              "plus 150 random ones on GTF databases, all on files, comparing after EVERY step the four tables (fresh connection), "
              "the in-memory counters, the .bak content, the outcome class and the long-lived object's own view (db[id] for a "
@@ -235,8 +246,10 @@ CLAIMED = {
              "sqlite transaction behaviour (an exception during update rolls back the creator's uncommitted connection once it "
              "is garbage collected) is modelled as 'disk unchanged' and checked by reading the file through a fresh "
              "connection after gc. GFF3- and GTF-dialect databases (the machine is parametrised by the stored dialect's importer); add_relation with an optional re-typing child_func; in-memory "
-             "counters after a failed update follow the code (advanced, not persisted). Finding F20 (mid-import "
-             "commit in _add_duplicate made failed 'merge' updates half-applied) was found by this check and fixed in /repo.",
+             "counters after a failed update follow the code (advanced, not persisted). Findings F20 (mid-import "
+             "commit in _add_duplicate made failed 'merge' updates half-applied) and F27 (a refused add_relation left its "
+             "transaction open and locked the file for later updates) were found by this check and fixed in /repo. The driver does "
+             "not roll anything back for the implementation after a failed step.",
         technique="Coq proof of the machine laws (per-step characterisations, invariants by induction over histories) + exhaustive small-scope differential correspondence over operation histories (the refinement itself)",
         design="4 (C10)"),
     "C11": dict(
@@ -247,7 +260,8 @@ CLAIMED = {
              "order is a total preorder (NULL < integers < text by code point), so results are determined up to ties; "
              "unfiltered unordered iteration is input order; count_features_of_type = number iterated; featuretypes()/seqids() "
              "= exactly the distinct values, each once. Tied to helpers.py/interface.py by ~2.3k queries per quick run (every "
-             "column as string and as tuple x reverse, multi-column orders, filters, counts), each accepted iff it has exactly "
+             "column as string and as tuple x reverse, multi-column orders, filters, counts; iterators requested first and consumed "
+             "later, several featuretypes()/seqids() listings advanced in lock-step), each accepted iff it has exactly "
              "the model's members and is sorted under the model's comparator - evaluated inside Coq.",
         note="Trusted: Coq kernel + vm_compute; Model/Order.v hand-written (SQLite value ordering and the 'suffix binds to "
              "the last term' rule are modelled), tied by the correspondence; the stored JSON text of attributes/extra is "
@@ -265,15 +279,19 @@ CLAIMED = {
              "base and every base of an output is covered by a member, i.e. the extents are the maximal runs (the interval "
              "union); children_bp is the summed child lengths, and with merge=True (default criteria, start-ordered children of "
              "one class) the NUMBER OF POSITIONS covered by at least one child (C16_children_bp_union, counted over any window). "
-             "'Merging the same objects again', previously merged objects, ambiguous-value columns, children_bp on mixed classes "
-             "and merge_all (new row per multi-member run; members related at level 1 "
-             "or deleted) are decided by the correspondence: every multiset of <= 3 (thorough: 4) intervals over 8 positions, "
+             "Inputs of SEVERAL classes: the pass falls apart at every change of class (merge of the whole = merge of the "
+             "single-class stretches one after the other, ids included), so for ANY input whose stretches are start-ordered the "
+             "outputs are the per-stretch maximal runs, and class-sorted input (merge_all's order) has one stretch per class. "
+             "A merged output has >= 2 members; merge_all adds exactly one row per merged output and one level-1 relation per "
+             "member, or deletes the members' rows and every relation mentioning them. 'Merging the same objects again', "
+             "previously merged objects, ambiguous-value columns and criteria handed over as one-shot iterators "
+             "are decided by the correspondence: every multiset of <= 3 (thorough: 4) intervals over 8 positions, "
              "17 criteria sets incl. thresholds and two custom criteria, ~14k cases per quick run compared inside Coq.",
         note="Trusted: Coq kernel + vm_compute; translator for merge_criteria.py; Model/Merge.v (the loop, _finalize_merge, "
              "children_bp, merge_all) hand-written and tied by the correspondence. Known finding F19 (start-ordered but "
              "class-interleaved input is not merged across the interleaving; children_bp(merge=True) then exceeds the per-class "
-             "union) is recorded with a Coq refutation (Examples/C16_inhabited.v). The maximal-runs and union-cardinality "
-             "theorems are for inputs of ONE (seqid, strand, featuretype) class; class mixtures, merge_all, 'merging again' and "
+             "union) is recorded with a Coq refutation (Examples/C16_inhabited.v). The union-cardinality theorem of children_bp is for "
+             "children of ONE class (what children(order_by='start') of one featuretype under one parent yields); 'merging again' and "
              "unchanged inputs are not theorems (correspondence + direct spec check only).",
         technique="Coq proof over translator-generated criteria (partition, hull, fresh ids, maximal runs by induction over the pass) + exhaustive small-scope differential correspondence",
         design="4 (C16)"),
@@ -287,28 +305,37 @@ CLAIMED = {
              "/ [end-1,end] of each such intron with the five/three-prime label table by side and strand. Tied to interface.py by "
              "every list of <= 3 (thorough 4) features over 6 positions x seqid/strand mixtures, 1.2k random lists x flag "
              "combinations, and 200 gene/transcript/exon databases for create_introns/create_splice_sites; inputs and database "
-             "are checked to be unchanged; outputs also compared with the declarative gap geometry inside Coq.",
-        note="Trusted: Coq kernel + vm_compute; Model/Inter.v and Model/Attrs.v hand-written, tied by the correspondence. "
+             "are checked to be unchanged; outputs also compared with the declarative gap geometry inside Coq. create_introns / "
+             "create_splice_sites over a database state (Model/Introns.v): the transcripts are the level-1 children of every "
+             "grandparent-type feature or every parent-type feature, their exons the level-1 children of the exon type sorted by "
+             "start (a permutation of those children, strongly sorted), the output per transcript exactly the gaps of its exons; N "
+             "separated exons give N-1 introns; a site carries the bin of its own two bases (F25). 200 whole annotations per run "
+             "(shared exons, transcripts under two genes, shuffled file order, bin boundaries) go through the import model and "
+             "the model's own selection.",
+        note="Trusted: Coq kernel + vm_compute; Model/Inter.v, Model/Introns.v and Model/Attrs.v hand-written, tied by the correspondence. "
              "float() (numeric_sort) is modelled on plain decimals of <= 15 digits only; values like '1e3', 'inf' or non-ASCII "
-             "digits make a case out of domain. create_introns' selection of transcripts and of their start-ordered exon "
-             "children is covered by the correspondence and by C02/C11's theorems, not re-proved here.",
+             "digits make a case out of domain. ORDER BY start is modelled as a stable sort; generated exon starts are distinct, "
+             "so ties (whose order SQL leaves open) do not occur.",
         technique="Coq proof (loop = declarative gaps by induction; splice-site geometry) + exhaustive small-scope differential correspondence",
         design="4 (C15)"),
     "C17": dict(
-        text="Coq theorems (Properties/C17.v, 16 statements, closed under the global context): Attributes stores a sequence "
+        text="Coq theorems (Properties/C17.v, 18 statements, closed under the global context): Attributes stores a sequence "
              "whatever is set (scalar -> one-item list; list/tuple kept; other keys untouched); always_return_list changes only "
              "the view of one-item lists, never what is stored; attributes -> JSON text -> attributes is the identity incl. key "
              "order - relative to an abstract codec, and for the codec modelled as text (Model/Json.v: simplejson.dumps with "
              "compact separators and ensure_ascii, strict simplejson.loads with surrogate-pair handling): loads (dumps a) = a for "
              "every mapping of Unicode scalar values, more generally whenever no high surrogate is directly followed by a low "
              "one (and a witness that this side condition is necessary); merge_attributes yields "
-             "per key exactly the union of both arguments' values (numeric_sort on or off), sorted and duplicate-free; Feature "
+             "per key exactly the union of both arguments' values (numeric_sort on or off), sorted and duplicate-free - strictly "
+             "ascending by code point, or with numeric_sort, when all values of a key are decimals, the same values with every "
+             "earlier one numerically <= every later one (C17_numeric_values_sorted); Feature "
              "equality holds iff the printed lines are equal and equal Features hash alike. Tied to attributes.py/helpers.py/"
              "feature.py by 5k cases per quick run: assignment sequences through Feature[k] and .attributes[k] read under both "
              "switch settings, _jsonify's text compared character by character and _unjsonify compared with the model decoder on "
              "adversarial Unicode (controls, quotes, backslashes, astral and surrogate code points) and on ~1500 damaged or "
              "hand-written JSON texts, "
-             "merge_attributes pairs with numeric/non-numeric values (arguments deep-compared before/after), Feature pairs "
+             "merge_attributes pairs with numeric/non-numeric values (arguments deep-compared before/after), the stored text decoded "
+             "again after in-place edits of an earlier decode, Feature pairs "
              "compared by ==, str and hash against the printer model.",
         note="Trusted: Coq kernel + vm_compute; Model/Container.v, Model/Attrs.v hand-written, tied by the correspondence. "
              "simplejson is modelled (Model/Json.v, the object-of-string-lists sub-grammar and the dialect dictionary) and tied by "
@@ -342,7 +369,9 @@ CLAIMED = {
              "window (refutation theorem). Tied to iterators.py/create.py/interface.py by every interleaving of 7 line kinds up "
              "to length 5 (thorough 6) and long random files, checklines 0/1/2/10/40, LF and CRLF, path and from_string input, "
              "comparing iterated features, DataIterator.directives after construction and after iteration, db.directives after "
-             "import and after reopening the file, inside Coq.",
+             "import and after reopening the file, inside Coq; in a third of the cases a second iterator over another annotation "
+             "advances meanwhile and create_db's transform reads that annotation too, and the file is reopened after an "
+             "update() that was refused.",
         note="Trusted: Coq kernel + vm_compute; Model/Iter.v hand-written (universal-newline reading, rstrip, prefix tests, "
              "generator suspension point, list-object sharing), tied by the correspondence. Feature lines are simple lines whose "
              "printed form equals the line. Files with lone-CR line ends or lines starting with white space are out of domain.",
@@ -357,7 +386,9 @@ CLAIMED = {
              "is exactly the non-false results in order; inspect()'s count is min(limit, n). The equivalence of the seven input "
              "forms themselves (path, gzip, string, list, generators, iter/map/chain objects, DataIterator, FeatureDB), of "
              "DataIterator iteration and create_db, and Python truthiness of transform results is decided by the correspondence: "
-             "11 forms x checklines 0..n+2 x 6 transforms with call counters (~640 cases, each running all forms), all (n, "
+             "11 forms x checklines 0..n+2 x 6 transforms with call counters (~670 cases, each running all forms; half of the "
+             "annotations mix lines that end their attribute column with ';' and lines that do not, ready-made Feature objects "
+             "carry the dialect of their own line, and the dialect vote for that entry is modelled in Corr/C13.v), all (n, "
              "length) <= 8 for peek, inspect with limits.",
         note="Trusted: Coq kernel + vm_compute; Model/Iter.v hand-written, tied by the correspondence. Which Python objects "
              "count as one-shot (hasattr __next__) is runtime behaviour the model abstracts as SList/SIter: the correspondence "
@@ -376,9 +407,12 @@ CLAIMED["C19"] = dict(
              "calls leaves the file and the .bak alone, so a reopen observes the same features, relations and id counters. "
              "What the model cannot exhibit - that sqlite really fails the schema script before touching the file, and that no "
              "read path of interface.py issues a write - is decided by the correspondence on the running code: 150 (old "
-             "database, new input) pairs per quick run (ids disjoint / overlapping / equal, force on/off) with sha256 of the "
+             "database, new input) pairs per quick run (ids disjoint / overlapping / equal, force on/off, a fifth of the old "
+             "databases emptied again by delete() - still databases, still refused) with sha256 of the "
              "file before/after and the tables afterwards compared with the model's prediction inside Coq; 150 file databases "
-             "with sequences of 3-12 read-style calls over 18 methods with generated arguments, recording EVERY statement the "
+             "with sequences of 3-12 read-style calls over 18 methods with generated arguments (relation levels up to 4; a third "
+             "of the sequences also contain a write call that fails before its commit, whose partial work no later read may make "
+             "permanent; a quarter of the databases have a stored dialect that lacks a key, and opening them is a read), recording EVERY statement the "
              "FeatureDB connection executes (sqlite3 trace callback: only SELECT/PRAGMA allowed), sha256 of the file, and "
              "tables, directives, meta rows and counters through a fresh connection before and after.",
         note="Trusted: Coq kernel + vm_compute; Model/Store.v hand-written. The theorems are about the model only; the runtime "
@@ -402,7 +436,7 @@ CLAIMED["C20"] = dict(
              "leaves one file (refutation). Real overlap (processes, kernel, sqlite) is outside the model and decided by "
              "the correspondence on the running code: every interleaving of the temp-file sync points of 2 forked "
              "create_db processes and sampled ones of 3 (file barriers patched into tempfile.NamedTemporaryFile/os.unlink "
-             "of the children), free-running groups of 4-24 processes with and without start offsets, GFF3/GTF, path and "
+             "of the children), free-running groups of 4-24 processes with and without start offsets, GFF3/GTF (with and without inference), path and "
              "from_string inputs, one shared temp dir; each output is compared with the solitary run inside Coq, the merged "
              "temp-file trace is replayed against the model's directory discipline (a name is created only while not in "
              "use, removed only by its creator) and against the create/remove skeleton of the model's programs, and the "
